@@ -52,6 +52,9 @@ Record field := mkF {
   f_init : bool;
   f_ntover : option bool;    (* field option serialize="as_dict" (Some true) / "as_list" (Some false) *)
   f_dnone : bool;            (* the field's default value is None *)
+  f_ser : option ty;         (* overridden serialization (field option serialize=<function> or a Config /
+                                dialect serialization_strategy entry that applies to the field): the function's
+                                return annotation.  The member then is what the function returns *)
 }.
 Record cls := mkC { c_id : string; c_name : string (* bare __name__ *); c_fields : list field;
                     c_ntd : bool     (* Config / Config.dialect namedtuple_as_dict *);
@@ -126,6 +129,9 @@ Definition nullable (t: ty) : bool :=
 (* CodeBuilder.is_field_nullable (kernel K20; Annotated/Final wrappers are already removed in `ty`):
    nullable type, or the default is None *)
 Definition fnullable (f: field) : bool := nullable (f_ty f) || f_dnone f.
+
+(* the type the JSON Schema describes for the field (on_type_with_overridden_serialization, the first creator) *)
+Definition f_sty (f: field) : ty := match f_ser f with Some rt => rt | None => f_ty f end.
 
 (* is the field listed in `required` (kernel K6R): no default, and not droppable under omit_none *)
 Definition frequired (omit: bool) (f: field) : bool := negb (f_has_default f) && negb (omit && fnullable f).
@@ -224,7 +230,12 @@ Fixpoint enc_ok (fuel: nat) (E: env) (cur base: bool) (t: ty) (v: value) (j: jso
     | TData c =>
         match find_cls (classes E) c, v, j with
         | Some d, VObj fs, JObj ms =>
-            obj_match (fun f fv x => enc_ok n E (nt_mode (c_ntd d) (f_ntover f)) (c_ntd d) (f_ty f) fv x)
+            (* an overriding function is applied to non-None values only: None of a nullable field passes through *)
+            obj_match (fun f fv x =>
+                         match f_ser f with
+                         | Some rt => if fnullable f && is_none_val fv then json_eqb x JNull
+                                      else enc_ok n E (nt_mode (c_ntd d) (f_ntover f)) (c_ntd d) rt fv x
+                         | None => enc_ok n E (nt_mode (c_ntd d) (f_ntover f)) (c_ntd d) (f_ty f) fv x end)
                       (fun f fv => c_omit d && fnullable f && is_none_val fv) (c_fields d) fs ms
         | _, _, _ => false end
     | TTyped c =>
@@ -349,7 +360,7 @@ Section Gen.
               if all_refs then Some (S [KRef (d_prefix dl) (c_name d)])
               else
                 let fs := filter f_init (c_fields d) in
-                match omap (fun f => match schema_f (nt_mode (c_ntd d) (f_ntover f)) n (f_ty f) with Some s => Some (f_key f, s) | None => None end) fs with
+                match omap (fun f => match schema_f (nt_mode (c_ntd d) (f_ntover f)) n (f_sty f) with Some s => Some (f_key f, s) | None => None end) fs with
                 | Some ps => Some (S (obj_kws (Some (c_name d)) ps
                                        (map f_key (filter (frequired (c_omit d)) fs))))
                 | None => None end
@@ -384,7 +395,7 @@ Section Gen.
   (* the object schema stored in the definitions for class d (all_refs mode) *)
   Definition class_schema (fuel: nat) (d: cls) : option schema :=
     let fs := filter f_init (c_fields d) in
-    match omap (fun f => match schema_f (nt_mode (c_ntd d) (f_ntover f)) fuel (f_ty f) with Some s => Some (f_key f, s) | None => None end) fs with
+    match omap (fun f => match schema_f (nt_mode (c_ntd d) (f_ntover f)) fuel (f_sty f) with Some s => Some (f_key f, s) | None => None end) fs with
     | Some ps => Some (S (obj_kws (Some (c_name d)) ps (map f_key (filter (frequired (c_omit d)) fs))))
     | None => None end.
 
@@ -425,7 +436,9 @@ Fixpoint ty_ok (fuel: nat) (E: env) (cur base: bool) (t: ty) {struct fuel} : boo
     | TUnion ts => forallb (ty_ok n E cur base) ts
     | TData c => match find_cls (classes E) c with
                  | Some d => forallb (fun f => f_init f                                         (* KF schema-init-false-field *)
-                                               && ty_ok n E (nt_mode (c_ntd d) (f_ntover f)) (c_ntd d) (f_ty f))
+                                               && ty_ok n E (nt_mode (c_ntd d) (f_ntover f)) (c_ntd d) (f_sty f)
+                                               && match f_ser f with                            (* KF schema-overridden-nullable *)
+                                                  | Some _ => negb (fnullable f) | None => true end)
                                      (c_fields d)
                  | None => false end
     | TTyped c => match find_cls (typeds E) c with
